@@ -664,7 +664,7 @@ def model(ctx):
 def generate(ctx):
     thorough = ctx.tier == 'thorough'
     out = []
-    n_exact = 8000 if thorough else 440
+    n_exact = 8000 if thorough else 420
     rng = np.random.default_rng(ctx.seed + 101)
     k = 0
     tries = 0
